@@ -519,6 +519,14 @@ class Names:
                 + "".join(f"let {v} := {k} in " for v, k in self.order) + body + ")")
 
 
+def _cmd_meta(f):
+    """field.metadata["cmd"] as the class builder in c16_driver sets it: simple_parsing.field always writes the key,
+    a plain dataclasses.field only when cmd=False is asked for"""
+    if f.get("via", "sp") == "sp":
+        return "(Some true)" if f["cmd"] else "(Some false)"
+    return "None" if f["cmd"] else "(Some false)"
+
+
 def _forest(case, n):
     ws = []
     for path, tree in drv.walk(case):
@@ -526,7 +534,7 @@ def _forest(case, n):
         fs = []
         for f in tree["fields"]:
             fs.append(f"(mkhf (mkfw {n.ss(path)} {n.s(f['name'])} {n.s(up)} {n.ss(f['aliases'])} false) {cbool(f['init'])} "
-                      f"{cbool(f['cmd'])} {n.s(f['help'])} {n.os(drv.value_text(f['default']))})")
+                      f"{_cmd_meta(f)} {n.s(f['help'])} {n.os(drv.value_text(f['default']))})")
         ws.append(f"(mkhw {n.s(tree['cls'])} {n.ss(path)} {clist(fs)})")
     return clist(ws)
 
